@@ -25,6 +25,17 @@
 #include <xercesc/util/XMLString.hpp>
 #include <xercesc/util/regx/RegularExpression.hpp>
 #include <xercesc/validators/common/Grammar.hpp>
+#include <xercesc/framework/psvi/PSVIHandler.hpp>
+#include <xercesc/framework/psvi/PSVIElement.hpp>
+#include <xercesc/framework/psvi/PSVIAttribute.hpp>
+#include <xercesc/framework/psvi/PSVIAttributeList.hpp>
+#include <xercesc/framework/psvi/XSElementDeclaration.hpp>
+#include <xercesc/framework/psvi/XSAttributeDeclaration.hpp>
+#include <xercesc/framework/psvi/XSTypeDefinition.hpp>
+#include <xercesc/framework/psvi/XSSimpleTypeDefinition.hpp>
+#include <xercesc/framework/psvi/XSComplexTypeDefinition.hpp>
+#include <xercesc/framework/psvi/XSModel.hpp>
+#include <xercesc/framework/psvi/XSNamedMap.hpp>
 
 using namespace xercesc;
 using namespace xv;
@@ -61,6 +72,27 @@ static const char* SCHEMA =
     "</xs:schema>";
 static const char* DTD_TEXT = "<!ELEMENT r (a+,b?)><!ELEMENT a (#PCDATA|c)*><!ELEMENT b EMPTY><!ELEMENT c EMPTY><!ATTLIST r d CDATA 'dv'>";
 
+// a second grammar of the locked pool with the remaining kinds of shared schema components: identity constraints (shared selector / field XPaths),
+// a substitution group, a lax wildcard, union and list types, a derivation used through xsi:type, a fixed and a defaulted attribute
+static const char* SCHEMA2 =
+    "<xs:schema xmlns:xs='http://www.w3.org/2001/XMLSchema' targetNamespace='urn:u' xmlns='urn:u' elementFormDefault='qualified'>"
+    "<xs:element name='r'><xs:complexType><xs:choice minOccurs='0' maxOccurs='unbounded'>"
+      "<xs:element name='k' type='K'/><xs:element name='f' type='F'/><xs:element ref='h'/><xs:element name='t' type='B'/><xs:element name='v' type='V'/><xs:element name='l' type='L'/>"
+      "<xs:element name='n' type='xs:int' nillable='true'/><xs:any namespace='##other' processContents='lax'/>"
+    "</xs:choice></xs:complexType>"
+      "<xs:key name='KK'><xs:selector xpath='.//k'/><xs:field xpath='@id'/></xs:key>"
+      "<xs:keyref name='FF' refer='KK'><xs:selector xpath='f'/><xs:field xpath='@ref'/></xs:keyref>"
+      "<xs:unique name='UU'><xs:selector xpath='t'/><xs:field xpath='@x'/></xs:unique>"
+    "</xs:element>"
+    "<xs:complexType name='K'><xs:attribute name='id' type='xs:decimal' use='required'/><xs:attribute name='fx' type='xs:string' fixed='F'/></xs:complexType>"
+    "<xs:complexType name='F'><xs:attribute name='ref' type='xs:integer'/></xs:complexType>"
+    "<xs:complexType name='B'><xs:attribute name='x' type='xs:string'/></xs:complexType>"
+    "<xs:complexType name='D'><xs:complexContent><xs:extension base='B'><xs:sequence><xs:element name='c' type='xs:date' minOccurs='0'/></xs:sequence><xs:attribute name='y' type='xs:string' default='yd'/></xs:extension></xs:complexContent></xs:complexType>"
+    "<xs:simpleType name='V'><xs:union memberTypes='xs:int xs:boolean'><xs:simpleType><xs:restriction base='xs:string'><xs:enumeration value='none'/></xs:restriction></xs:simpleType></xs:union></xs:simpleType>"
+    "<xs:simpleType name='L'><xs:list itemType='V'/></xs:simpleType>"
+    "<xs:element name='h' type='xs:string'/><xs:element name='hs' type='xs:token' substitutionGroup='h'/><xs:element name='ht' type='xs:NCName' substitutionGroup='hs'/>"
+    "</xs:schema>";
+
 static XMLGrammarPoolImpl* g_pool = nullptr;  // shared locked pool, prepared in the parent before fork
 
 static void prepare_pool() {
@@ -70,6 +102,8 @@ static void prepare_pool() {
         p.setDoNamespaces(true); p.setDoSchema(true);
         MemBufInputSource s((const XMLByte*)SCHEMA, strlen(SCHEMA), "s.xsd");
         p.loadGrammar(s, Grammar::SchemaGrammarType, true);
+        MemBufInputSource s2((const XMLByte*)SCHEMA2, strlen(SCHEMA2), "u.xsd");
+        p.loadGrammar(s2, Grammar::SchemaGrammarType, true);
         MemBufInputSource d((const XMLByte*)DTD_TEXT, strlen(DTD_TEXT), "d.dtd");
         p.loadGrammar(d, Grammar::DTDGrammarType, true);
     }
@@ -103,6 +137,46 @@ static std::string parse_with_pool(const char* doc, bool schema) {
     try { p.parse(s); } catch (const XMLException& e) { h.log += "[X:" + narrow16(e.getMessage()) + "]"; } catch (...) { h.log += "[X?]"; }
     return h.log;
 }
+// the same with a PSVI handler: every element / attribute item reads declarations and type definitions out of the XSModel shared through the pool
+struct PsviH : public PSVIHandler {
+    std::string* log;
+    static std::string ty(XSTypeDefinition* t) { return t ? (t->getAnonymous() ? std::string("(anon)") : narrow16(t->getName())) + (t->getBaseType() ? "<" + narrow16(t->getBaseType()->getName()) : std::string()) : std::string("-"); }
+    void handleElementPSVI(const XMLCh* const local, const XMLCh* const, PSVIElement* e) override {
+        *log += "{E " + narrow16(local) + " v" + std::to_string((int)e->getValidity()) + "/" + std::to_string((int)e->getValidationAttempted()) + " " + ty(e->getTypeDefinition());
+        if (e->getElementDeclaration()) *log += " decl=" + narrow16(e->getElementDeclaration()->getName()) + (e->getElementDeclaration()->getSubstitutionGroupAffiliation() ? "^" + narrow16(e->getElementDeclaration()->getSubstitutionGroupAffiliation()->getName()) : std::string());
+        if (e->getMemberTypeDefinition()) *log += " member=" + ty(e->getMemberTypeDefinition());
+        if (e->getSchemaNormalizedValue()) *log += " nv=" + narrow16(e->getSchemaNormalizedValue());
+        *log += "}";
+    }
+    void handlePartialElementPSVI(const XMLCh* const, const XMLCh* const, PSVIElement*) override {}
+    void handleAttributesPSVI(const XMLCh* const, const XMLCh* const, PSVIAttributeList* l) override {
+        for (XMLSize_t i = 0; i < l->getLength(); i++) {
+            PSVIAttribute* a = l->getAttributePSVIAtIndex(i);
+            *log += "{A " + narrow16(l->getAttributeNameAtIndex(i)) + " v" + std::to_string((int)a->getValidity()) + " " + ty(a->getTypeDefinition()) + (a->getIsSchemaSpecified() ? " dflt" : "") + "}";
+        }
+    }
+};
+static const XMLCh URN_U[] = {'u', 'r', 'n', ':', 'u', 0};
+static std::string parse_with_pool_psvi(const char* doc) {
+    SAX2XMLReaderImpl p(XMLPlatformUtils::fgMemoryManager, g_pool);
+    Sax2CountH h; PsviH ph; ph.log = &h.log;
+    p.setContentHandler(&h); p.setErrorHandler(&h); p.setPSVIHandler(&ph);
+    p.setFeature(XMLUni::fgSAX2CoreNameSpaces, true);
+    p.setFeature(XMLUni::fgSAX2CoreValidation, true);
+    p.setFeature(XMLUni::fgXercesSchema, true);
+    p.setFeature(XMLUni::fgXercesSchemaFullChecking, true);
+    p.setFeature(XMLUni::fgXercesUseCachedGrammarInParse, true);
+    MemBufInputSource s((const XMLByte*)doc, strlen(doc), "doc.xml");
+    try { p.parse(s); } catch (const XMLException& e) { h.log += "[X:" + narrow16(e.getMessage()) + "]"; } catch (...) { h.log += "[X?]"; }
+    // and a walk over the shared model itself
+    bool changed = false;
+    XSModel* m = g_pool->getXSModel(changed);
+    if (m) {
+        XSNamedMap<XSObject>* els = m->getComponentsByNamespace(XSConstants::ELEMENT_DECLARATION, URN_U);
+        for (XMLSize_t i = 0; els && i < els->getLength(); i++) { XSElementDeclaration* d = (XSElementDeclaration*)els->item(i); h.log += "(" + narrow16(d->getName()) + ":" + PsviH::ty(d->getTypeDefinition()) + ")"; }
+    }
+    return h.log;
+}
 static std::string parse_plain(const char* doc) {
     SAXParser p;
     CountH h;
@@ -131,6 +205,9 @@ static std::string s2_a() { return parse_with_pool("<r xmlns='urn:t' xmlns:m='ur
 static std::string s2_b() { return parse_with_pool("<r xmlns='urn:t' xmlns:n='urn:new1'><a><e>ab</e><n:x n:k='v' xmlns:n3='urn:new3'><n3:y/></n:x></a><a/><a/><a/></r>", true); }
 static std::string s2_c() { return parse_with_pool("<!DOCTYPE r SYSTEM 'd.dtd'><r xmlns:o='urn:o1' o:z='1'><a>t<c/></a><b/><b/></r>", false); }
 static std::string s2_d() { return parse_with_pool("<!DOCTYPE r SYSTEM 'd.dtd'><r xmlns:n='urn:new2' n:w='2'><a/><a xmlns:n4='urn:new4' n4:v='3'>u</a></r>", false); }
+static const char* XSI = "xmlns:xsi='http://www.w3.org/2001/XMLSchema-instance'";
+static std::string s13_a() { return parse_with_pool_psvi((std::string("<r xmlns='urn:u' ") + XSI + "><k id='1'/><k id='2.0'/><f ref='2'/><hs> a  b </hs><t xsi:type='D' x='1'><c>2020-01-01</c></t><v>true</v><l>1 none false</l><n xsi:nil='true'/><o:z xmlns:o='urn:o9' q='1'/></r>").c_str()); }
+static std::string s13_b() { return parse_with_pool_psvi((std::string("<r xmlns='urn:u' ") + XSI + "><ht>nc</ht><k id='1'/><k id='1.0'/><f ref='7'/><t x='1'/><t x='1'/><v>none</v><v>nope</v><l>x</l><n>5</n><t xsi:type='D'><c>bad</c></t></r>").c_str()); }
 static std::string s3_a() {
     std::string o;
     DOMImplementation* impl = DOMImplementationRegistry::getDOMImplementation(W("Core"));
@@ -244,6 +321,7 @@ static std::vector<Scenario> SCENARIOS = {
     {"regex-icase-categories", "two threads compile case-insensitive expressions over the same shared category token", {s11_a, s11_b}, false},
     {"named-transcoders", "first use of named transcoders (service mapping, ICU converters), decode and encode", {s9_a, s9_b}, false},
     {"private-schema-build", "two private parsers each build a schema grammar with a pattern facet and validate", {s10_a, s10_b}, false},
+    {"shared-pool-schema-psvi", "two parsers with PSVI handlers validate against identity constraints, substitution groups, unions, xsi:type of one locked pool and walk its XSModel", {s13_a, s13_b}, true},
     {"regex-categories", "first use of the same lazily built regex character categories", {s1_a, s1_b}, false},
     {"regex-categories-3", "three threads, first use of categories and a block", {s1_a, s1_b, s1_c}, false},
     {"shared-pool-schema", "two parsers validate against the same complex type of one locked pool for the first time", {s2_a, s2_b}, true},
